@@ -1,6 +1,7 @@
 package vc
 
 import (
+	"go/types"
 	"sort"
 
 	"golang.org/x/tools/go/ssa"
@@ -106,6 +107,103 @@ func (f *FnVC) privateKeeps(callee *ssa.Function) []Term {
 		}
 		out = append(out, r)
 	}
+	for _, pf := range f.privFree {
+		if callee != nil && pf.writers[callee] {
+			continue
+		}
+		out = append(out, pf.ref)
+	}
 	sort.Slice(out, func(i, j int) bool { return out[i].S < out[j].S })
 	return out
+}
+
+// Private free variables: the function under verification is itself a closure and fv is one of its captured variables.
+// If the variable's address never escapes (in the parent it is only loaded, stored and bound into closures; in every
+// closure that binds it, it is only loaded and stored), then only the parent's own code and those closures can change it.
+// While this closure calls something else, the parent is not running and the closures can only run if the callee calls
+// back into them; that callees do not re-enter the closures of the function that is calling them is an assumption of the
+// engine (listed in DESIGN.md). Under it the variable keeps its value across calls with unknown effects.
+func privateFreeVar(fn *ssa.Function, idx int) (ok bool, writers map[*ssa.Function]bool) {
+	parent := fn.Parent()
+	if parent == nil {
+		return false, nil
+	}
+	var maker *ssa.MakeClosure
+	for _, b := range parent.Blocks {
+		for _, in := range b.Instrs {
+			if mc, isMC := in.(*ssa.MakeClosure); isMC && mc.Fn == ssa.Value(fn) {
+				if maker != nil {
+					return false, nil
+				}
+				maker = mc
+			}
+		}
+	}
+	if maker == nil || idx >= len(maker.Bindings) {
+		return false, nil
+	}
+	al, isAlloc := maker.Bindings[idx].(*ssa.Alloc)
+	if !isAlloc || al.Referrers() == nil {
+		return false, nil
+	}
+	writers = map[*ssa.Function]bool{}
+	for _, ref := range *al.Referrers() {
+		switch r := ref.(type) {
+		case *ssa.Store:
+			if r.Addr != ssa.Value(al) {
+				return false, nil
+			}
+		case *ssa.UnOp, *ssa.DebugRef:
+		case *ssa.MakeClosure:
+			cf := r.Fn.(*ssa.Function)
+			for i, b := range r.Bindings {
+				if b != ssa.Value(al) {
+					continue
+				}
+				fv := cf.FreeVars[i]
+				if fv.Referrers() == nil {
+					continue
+				}
+				for _, fr := range *fv.Referrers() {
+					switch x := fr.(type) {
+					case *ssa.Store:
+						if x.Addr != ssa.Value(fv) {
+							return false, nil
+						}
+						writers[cf] = true
+					case *ssa.UnOp, *ssa.DebugRef:
+					default:
+						return false, nil
+					}
+				}
+			}
+		default:
+			return false, nil
+		}
+	}
+	return true, writers
+}
+
+type privFreeRec struct {
+	ref     Term
+	writers map[*ssa.Function]bool
+}
+
+// notePrivateFreeVars records, at function entry, the captured variables of a closure under verification that are private.
+func (f *FnVC) notePrivateFreeVars() {
+	for i, fv := range f.Fn.FreeVars {
+		pt, isPtr := fv.Type().Underlying().(*types.Pointer)
+		if !isPtr || isAggregate(pt.Elem()) || isArray(pt.Elem()) {
+			continue
+		}
+		ok, writers := privateFreeVar(f.Fn, i)
+		if !ok {
+			continue
+		}
+		v, have := f.vals[vkey{fv, 0}]
+		if !have || v.T.Sort != SRef {
+			continue
+		}
+		f.privFree = append(f.privFree, privFreeRec{ref: v.T, writers: writers})
+	}
 }
